@@ -238,16 +238,6 @@ Proof.
   reflexivity.
 Qed.
 
-(* which trailing fields a text may leave out *)
-Definition trunc_ok (t : nat) (h m s : N) : Prop :=
-  match t with
-  | 0%nat => True
-  | 1%nat => s = 0
-  | 2%nat => m = 0 /\ s = 0
-  | 3%nat => h = 0 /\ m = 0 /\ s = 0
-  | _ => False
-  end.
-
 Lemma div10_lt n : n < 100 -> n / 10 < 10.
 Proof. intros H. apply N.div_lt_upper_bound; [discriminate|exact H]. Qed.
 Lemma mod10_lt n : n mod 10 < 10.
